@@ -149,10 +149,12 @@ Host(a, h, k, s) ==
        ELSE OnCircuit(a, h, k, "H")
 
 Far == Sims \cup {Unk}
+\* a viewer can also mis-address a datagram to a viewer's own address (0 - b: viewer of association b)
+CFar == Far \cup {0 - b : b \in Assoc}
 Next == \/ \E s \in Sess : Login(s)
         \/ \E s \in Sess, h \in Sims : AddRegion(s, h)
-        \/ \E a \in Assoc, h \in Far, k \in CKinds \ {"ucc"} : Client(a, h, k, NoSess)
-        \/ \E a \in Assoc, h \in Far, s \in Sess \cup {NoSess} : Client(a, h, "ucc", s)
+        \/ \E a \in Assoc, h \in CFar, k \in CKinds \ {"ucc"} : Client(a, h, k, NoSess)
+        \/ \E a \in Assoc, h \in CFar, s \in Sess \cup {NoSess} : Client(a, h, "ucc", s)
         \/ \E a \in Assoc, h \in Far, k \in HKinds \ {"ucc"} : Host(a, h, k, NoSess)
         \/ \E a \in Assoc, h \in Far, s \in Sess \cup {NoSess} : Host(a, h, "ucc", s)
 Spec == Init /\ [][Next]_vars
@@ -198,7 +200,7 @@ Inert == out' = NoOut /\ UNCHANGED pvars
 IsViewerUCC == ev'.n = "C" /\ ev'.k = "ucc"
 DiscardClass == \/ ev'.k \in SocksBad \cup LludpBad \cup {"dom"}
                 \/ (ev'.n = "H" /\ ev'.k \in {"banned", "spoof"})
-                \/ (~IsViewerUCC /\ (ev'.h = Unk \/ sess[ev'.a] = NoSess))
+                \/ (~IsViewerUCC /\ (ev'.h \notin Sims \/ sess[ev'.a] = NoSess))
                 \/ (~IsViewerUCC /\ ev'.h \in Sims /\ sess[ev'.a] # NoSess /\ circ[sess[ev'.a]][ev'.h] = "none")
 DiscardsInert == [][(ev'.n \in {"C", "H"} /\ DiscardClass) => Inert]_vars
 \* a datagram on one association never touches a session held by another one, and apart from
